@@ -30,6 +30,9 @@ type discCase struct {
 	StaggerMs int  `json:"stagger_ms"`
 	// Wildcard: the second client binds 0.0.0.0:P (or the IPv4-mapped form of 127.0.0.1) instead of 127.0.0.1:P - the same port
 	Wildcard int `json:"wildcard,omitempty"`
+	// PauseUs: the driver's result reaches the library only after this many microseconds (the real driver wrapped by a
+	// pass-through that sleeps): the gap between receiving and decoding, in which other calls keep receiving, is stretched
+	PauseUs int `json:"pause_us,omitempty"`
 }
 
 func runDiscovery(c discCase, scale int) *rp.Fail {
@@ -88,7 +91,12 @@ func runDiscovery(c discCase, scale int) *rp.Fail {
 		if i == 1 && c.Wildcard == 1 {
 			ci.BindIP = [4]byte{0, 0, 0, 0}
 		}
-		clients[i] = hook.Real(ci)
+		if c.PauseUs > 0 {
+			us := c.PauseUs
+			clients[i] = hook.RealPaused(ci, func(string) { time.Sleep(time.Duration(us*scale) * time.Microsecond) })
+		} else {
+			clients[i] = hook.Real(ci)
+		}
 	}
 	type result struct {
 		list []types.Device
@@ -177,5 +185,6 @@ func checkDiscovery(c discCase) *rp.Fail {
 
 func genDiscovery(t *rapid.T) discCase {
 	return discCase{Callers: rapid.IntRange(2, 5).Draw(t, "callers"), Clients: rapid.IntRange(1, 2).Draw(t, "clients"), Fixed: rapid.Bool().Draw(t, "fixed"), Stream: rapid.Bool().Draw(t, "stream"),
-		StaggerMs: rapid.SampledFrom([]int{0, 0, 20, 75, 140}).Draw(t, "stagger"), Wildcard: rapid.IntRange(0, 1).Draw(t, "wildcard")}
+		StaggerMs: rapid.SampledFrom([]int{0, 0, 20, 75, 140}).Draw(t, "stagger"), Wildcard: rapid.IntRange(0, 1).Draw(t, "wildcard"),
+		PauseUs: rapid.SampledFrom([]int{0, 0, 200, 2000, 10000}).Draw(t, "pause")}
 }
